@@ -102,7 +102,7 @@ def steps_of(sc):
         st += [["next", i] for i in range(n)]
         st += ["end", "close"]
     elif sc["kind"] == "file":
-        st += ["file_close"]
+        st += ["file_read", "file_close"]
     return st
 
 
@@ -270,6 +270,11 @@ def one_run(sc, placement, sub_id):
                     pass
             else:
                 v("unexpected_response", "first response is %r without the application's marker" % (r0.status,))
+        raise_seq = next((e[0] for e in k.history if e[2] == "app_raise"), None)
+        if placement[1] == "file_read":
+            # the file is read by the I/O thread after the task has returned: a request that was already executed
+            # when the read failed was not executed *after* the failure
+            calls_b = [c for c in calls_b if raise_seq is not None and c["begin"] is not None and c["begin"] > raise_seq]
         if calls_b:
             v("executed_after_failure", "the next request on the connection was executed after the failure")
     # every file handed over must be closed by the time the connection is gone
@@ -286,6 +291,10 @@ def one_run(sc, placement, sub_id):
             if f is not None and rec["returned"]:
                 if f.closed_count == 0 and (k.end_reason in ("idle", "quiescent")):
                     v("file_not_closed", "file handed to wsgi.file_wrapper was never closed (conn closed=%s)" % (s.closed if s else None))
+                elif sc["kind"] == "ufile" and f.closed_count > 1:
+                    # a file without seek/tell is never handed to the channel: the task iterates the wrapper and
+                    # closes it like any other iterable - exactly once
+                    v("close_count", "close() of the iterated wsgi.file_wrapper result reached the application's file %d times" % f.closed_count, disc=ptag + ":ufile:%d" % f.closed_count)
         elif rec["returned"]:
             if n != 1 and k.end_reason in ("idle", "quiescent"):
                 v("close_count", "close() of the application's iterable called %d times" % n, disc=ptag + ":%d" % n)
@@ -315,7 +324,7 @@ def run_one(tapes, tier, scenario=None):
         i = 1
         for st in steps_of(sc):
             for ec in EXC:
-                if st == "file_close" and ec in ("BaseException", "SystemExit"):
+                if st in ("file_close", "file_read") and ec in ("BaseException", "SystemExit"):
                     # a handed-over file is closed by the I/O thread, where SystemExit/KeyboardInterrupt are the
                     # server's own shutdown signal by design; only Exception classes are injected there
                     continue
